@@ -113,7 +113,9 @@ CHECKS = {
              'value kinds, client shapes, reference forms; every scoping block nested, also left by exceptions) and the '
              'real renderer must return the same text and call the same values in the same order.  Second binding: in every '
              'recorded search of every TemplateDict (C02 / C08 cases under fault plans, the 237 tests of the repository) the frame '
-             'that answered is the highest frame defining the name, KeyError exactly when none does (ObsLookup, per-trace verdicts).',
+             'that answered is the highest frame defining the name, KeyError exactly when none does (ObsLookup, per-trace verdicts).  Also '
+             'modelled and replayed: objects built by _.namespace(a=n), a let binding a name to itself, computing / empty mappings as '
+             'with-bindings, nested and sibling loops with prefixes of their own (a prefixed name is answered by the tag carrying that prefix).',
         note='Values are distinct markers; the machine is the oracle and is itself checked for stack discipline; the probe order of the real search is recorded as drift only.',
         ref='DESIGN.md section 4 C02'),
     'C08': dict(engine='DTRender', technique='TLA+ small-step machine of the renderer (DTRender) checked by TLC; every behaviour (case x fault plan) exported and replayed into the real renderer',
@@ -126,13 +128,16 @@ CHECKS = {
     'C09': dict(engine='DTRender', technique='TLA+ small-step machine of the renderer (DTRender) checked by TLC; every behaviour (case x fault plan) exported and replayed into the real renderer',
         text='All chains of condition atoms up to the tier length with every truth assignment, else shape and body '
              'shape are explored by TLC on the machine (cache frame, in-order evaluation, caching of named '
-             'conditions) and replayed; returned text and the ordered call log must agree.',
+             'conditions) and replayed; returned text and the ordered call log must agree; also names bound to document templates '
+             '(rendered on the current namespace, the text is the value: IfCondTmpl), client objects that acquire attributes while the '
+             'template is rendered (setter methods), enclosed with ... only blocks.',
         note='Truth assignments are realised by the values; expressions are n(), n, not n.',
         ref='DESIGN.md section 4 C09'),
     'C10': dict(engine='DTRender', technique='TLA+ small-step machine of the renderer (DTRender) checked by TLC; every behaviour (case x fault plan) exported and replayed into the real renderer',
         text='The machine defines every documented sequence variable (SvValue/SvLookup), the push rule and the else '
              'rule; TLC explores all small sequences x containers x options (incl. sort, reverse, prefix) and the real '
-             'dtml-in must print the same table, call log and push/pop log.',
+             'dtml-in must print the same table, call log and push/pop log; also bodies that raise while an element is pushed, '
+             'attributes named like the fixed variables, batched windows written with an explicit end, failing loop preparation.',
         note='sequence-key only for 2-tuples, first-/last-/var-x only where every element has x.',
         ref='DESIGN.md section 4 C10'),
     'C14': dict(engine='DTRender', technique='TLA+ small-step machine of the renderer (DTRender) checked by TLC; every behaviour (case x fault plan) exported and replayed into the real renderer',
